@@ -16,11 +16,14 @@ from harness import tlc
 from harness.replay import codec
 
 SCOPE = ("BOUNDED: structure (the composite grammar, null / empty / absent positions, 16- vs 32-bit length prefixes, "
-         "fixed- vs variable-width vector elements) and small-magnitude values only. Numbers stay within 32 bits "
-         "(64-bit fields carry sign-extended 32-bit values, varints reach 4 bytes, vints 5 bytes); magnitudes beyond "
-         "that, float/double bit patterns, the textual forms of inet / uuid, UTF-8 validation and calendar arithmetic "
-         "over large ranges are outside what this TLA+ specification can decide and are not covered (timestamps given as "
-         "a wall-clock reading with a UTC offset are covered for readings within a day of the epoch only).")
+         "fixed- vs variable-width vector elements) and boundary values. Most numbers stay within 32 bits (64-bit fields "
+         "carry sign-extended 32-bit values, vints reach 5 bytes). The INTEGER family goes beyond: varint, decimal "
+         "(unscaled) and bigint are also enumerated on byte-wise defined wide integers at every byte-length boundary up "
+         "to 72 bits (magnitudes 2^(8k-1)-1, 2^(8k-1), 2^(8k-1)+1 for k = 1..9, both signs, plus some byte patterns; "
+         "bigint's int64 range limits included) - at those boundaries only, not arbitrary wide values. Wide vints "
+         "(durations beyond 2^30), float/double bit patterns, the textual forms of inet / uuid, UTF-8 validation and "
+         "calendar arithmetic over large ranges are outside what this TLA+ specification can decide and are not covered "
+         "(timestamps given as a wall-clock reading with a UTC offset are covered for readings within a day of the epoch).")
 
 META = {
     "property_id": "C02",
@@ -31,7 +34,8 @@ META = {
     "level": "model_checking",
     "level_text": "TLC exhaustively enumerates the configured type trees (18 scalar types; lists, sets, maps, tuples, UDTs, "
                   "vectors over them; nesting to depth 3) x per-type boundary alphabets (every two's complement byte "
-                  "boundary up to 2^31 and its neighbours, every vint length boundary, 1-4 byte UTF-8 sequences) x "
+                  "boundary up to 2^31 and its neighbours - and, for varint / decimal / bigint, byte-wise defined wide "
+                  "integers at every byte-length boundary up to 72 bits - every vint length boundary, 1-4 byte UTF-8 sequences) x "
                   "protocol versions {2,3,4,5}; on the specification it checks that an independent decoder reads every "
                   "encoding back as the normalised value with consistent length prefixes, minimal varints and canonical "
                   "vints; each case is then run through the real to_binary / from_binary and must agree exactly, and "
@@ -80,7 +84,7 @@ def run(ctx):
     ctx.note("rule", "one case = one TLC state (type tree, protocol version, abstract value | out-of-range number | "
                      "null/empty cell); distinct by the whole case; non-trivial = a composite with at least one element, "
                      "a scalar whose encoding has more than one byte, or an expectation other than a plain encoding")
-    for need in ("null-field", "null-collection-element", "empty-collection", "aware-timestamp", "short-udt-encodings",
+    for need in ("null-field", "null-collection-element", "empty-collection", "aware-timestamp", "wide-integer-64bit-and-beyond", "short-udt-encodings",
                  "v2-16bit-collection", "depth-2", "depth-3"):
         if not feats.get(need):
             raise tlc.MachineryError("vacuity: no case with feature %s" % need)
